@@ -16,6 +16,8 @@ META["explanation"] += " " + 'Also: clamp / power-of-two typestate of every resi
 
 META["explanation"] += " " + "Also (rounds 11-12): allocator discipline (only the default cds_lfht_alloc hooks call libc's allocator), whole-table walks start at bucket 0, destroy releases nothing before delete_bucket succeeded, create_bucket loop bounds."
 
+META["explanation"] += " " + 'Also (round 14): a refused destroy leaves the caller as it found it - cds_lfht_is_empty releases the read lock / online state on every path.'
+
 RULES = [
     ("C08.valid", lambda c, r: lfht.rule_valid(c, r, "C08.valid")),
     ("C08.class", lambda c, r: lfht.rule_class(c, r, "C08.class")),
